@@ -117,12 +117,14 @@ def run_case(case):
         tmax_si = {"before": ts[-1] * r.uniform(0.3, 0.95), "after": ts[-1] * r.uniform(1.05, 1.6) + dt,
                    "inside": dt * (r.randint(0, nsteps_target) + r.choice([0.0, 0.5]))}[tmax_mode]
         tmax = tmax_si
-    interval_si = dt * r.choice([0.5, 1.0, 1.7, 3.0, 7.3])
+    # also intervals far below the step (the ratio t/interval then exceeds 2^31: every step crosses a multiple)
+    interval_si = dt * r.choice([0.5, 1.0, 1.7, 3.0, 7.3, 1e-3, 1e-10, 1e-12])
     ms = gen.mild_sys(r)
     usys = (ms[0], r.choice(["s", "s", "ms", "min", "ds", "µs"]), "molecule")
     sseed = r.randrange(2 ** 31)
     tsc = float(si.TIME[usys[1]])
     t_in_other_unit = r.random() < 0.3
+    via_setters = r.random() < 0.35
     from strengths import RDScript, UnitsSystem, UnitArray
 
     def mk(policy_):
@@ -144,6 +146,21 @@ def run_case(case):
             kw["t_sample"] = UnitArray([float(x / float(si.TIME[own])) for x in ts], own)
         else:
             kw["t_sample"] = [float(x / tsc) for x in ts]
+        if via_setters:
+            # construct with other values, then assign the real ones through the property setters (a script object is
+            # mutable: what it holds when it is run is what counts, defaults such as t_max must follow)
+            kw0 = dict(kw)
+            kw0["t_sample"] = [0.0, 3.0 * float(ts[-1] / tsc) + 1.0]
+            kw0["time_step"] = float(dt / tsc) * 3.3
+            kw0["sampling_interval"] = float(dt / tsc) * 11.0
+            kw0["sampling_policy"] = "on_iteration" if policy_ != "on_iteration" else "on_t_sample"
+            sc = RDScript(**kw0)
+            sc.t_max                        # reading a derived value must not freeze it
+            names = ["t_sample", "time_step", "sampling_interval", "sampling_policy"]
+            gen.rng_for(sd, "C09set", idx).shuffle(names)
+            for nm in names:
+                setattr(sc, nm, kw[nm])
+            return sc
         return RDScript(**kw)
     try:
         script_ref = mk("on_iteration")
@@ -339,7 +356,7 @@ def run_case(case):
     return {"key": key, "nontrivial": len(Tl) >= 3, "counts": counts, "bad": bad[:5],
             "sample": {"seed": sd, "idx": idx, "engine": kind_, "policy": policy, "style": style, "t_max": tmax_mode,
                        "requested": taus[:8], "dt": dt_e, "interval": I_e, "steps": len(Tl) - 1, "records": len(t),
-                       "manual_sample_calls": len(manual), "time_unit": usys[1]}}
+                       "manual_sample_calls": len(manual), "time_unit": usys[1], "built_via_setters": via_setters}}
 
 
 def main():
